@@ -18,7 +18,7 @@ from ..gen import printer
 
 ID = "C16"
 LEVEL = "exploration"
-RULE = ("cases = fully annotated seeded programs x {unmutated, one mutation out of 14 site kinds}; only check-clean "
+RULE = ("cases = fully annotated seeded programs x {unmutated, one mutation out of ~45 site kinds incl. a wrong left / right operand of each of the 15 typed binary operators}; only check-clean "
         "(no severity:error) survivors are executed; distinct key = (site kind, check verdict, runtime outcome class)")
 ASSUME = ["generated unmutated programs are well typed by construction",
           "type-related runtime errors are recognised by the message templates listed in TEMPLATES"]
@@ -50,7 +50,51 @@ def classify_err(line):
     return None
 
 
+# ---- exhaustive small scope: one wrong operand of every typed binary operator --------------------------------
+OPSNIP_OPS = [(op, "Int") for op in ("+", "-", "*", "/", "%", "**", "&", "|", "<", "<=", ">", ">=")] + \
+             [("&&", "Bool"), ("||", "Bool"), ("^", "String")] + [(op, "Float") for op in ("+.", "-.", "*.", "/.")]
+OPSNIP_LIT = {"Int": "3", "Bool": "True", "String": "\"w\"", "Float": "1.5", "List<Int>": "[1]", "Option<Int>": "Some(1)"}
+OPSNIP_GOOD = {"Int": "2", "Bool": "(1 < 2)", "String": "\"g\"", "Float": "2.0"}
+OPSNIP_WRAPS = ["literal", "generic-call", "typed-call", "variable", "parameter"]
+
+
+def opsnip_cases(tier="thorough"):
+    for op, ty in OPSNIP_OPS:
+        for side in ("l", "r"):
+            wtys = [w for w in OPSNIP_LIT if w != ty]
+            if tier == "quick":
+                wtys = [w for w in wtys if w in ("String", "Int", "List<Int>", "Bool")][:3]
+            for wty in wtys:
+                for wrap in (OPSNIP_WRAPS if tier != "quick" else ("literal", "typed-call", "parameter")):
+                    yield {"opsnip": [op, ty, side, wty, wrap]}
+
+
+def opsnip_source(op, ty, side, wty, wrap):
+    lit = OPSNIP_LIT[wty]
+    pre, params, args = "", "", ""
+    if wrap == "literal":
+        bad = lit
+    elif wrap == "generic-call":
+        bad = "verif_id(%s)" % lit
+    elif wrap == "typed-call":
+        pre = "fun verif_w(): %s {\n  %s\n}\n\n" % (wty, lit)
+        bad = "verif_w()"
+    elif wrap == "variable":
+        bad = "verif_v"
+    else:
+        bad = "verif_p"
+        params, args = "verif_p: %s" % wty, lit
+    good = OPSNIP_GOOD[ty]
+    e = "%s %s %s" % ((bad, op, good) if side == "l" else (good, op, bad))
+    body = ("  let verif_v: %s = %s\n" % (wty, lit) if wrap == "variable" else "") + "  println(string_repr(%s))\n" % e
+    return ("fun verif_id<T>(x: T): T {\n  x\n}\n\n" + pre + "fun verif_host(%s): Unit {\n%s}\n\nverif_host(%s)\n" % (params, body, args))
+
+
 def gen_cases(tier, seed):
+    for c in opsnip_cases(tier):
+        yield c
+    yield {"_marker": "operator-operands", "space": "19 typed binary operators x left/right x wrong operand types (3 quick / 5) x "
+                                                     "{literal, generic call, typed call, annotated variable, parameter} (3 of them in quick)"}
     i = 0
     while True:
         s = seed * 15485863 + i
@@ -199,19 +243,35 @@ def sites(prog):
                                                    args=[E("call", STR, fn="string_repr", builtin=True, args=[use])])}]
             out.append((kind, apply))
 
+    # one wrong operand of every binary operator (left / right; a literal or the same literal behind a generic call)
+    OPS = [(op, INT) for op in ("+", "-", "*", "/", "%", "**", "&", "|", "<", "<=", ">", ">=")] + \
+          [("&&", BOOL), ("||", BOOL), ("^", STR)]
+
     def logic_snippet(block):
-        for kind, side in (("logic-operand-right-snippet", "r"), ("logic-operand-left-snippet", "l")):
-            def apply(rng, block=block, side=side):
-                i = rng.randrange(len(block) + 1)
-                while i > 0 and block[i - 1]["k"] in ("break", "continue", "return"):
-                    i -= 1
-                i = min(i, max(0, len(block) - 1))
-                cmp = E("bin", BOOL, op="<", l=E("int", INT, v=1), r=E("int", INT, v=2))
-                bad = wrong(BOOL, rng)
-                e = E("bin", BOOL, op=rng.choice(["&&", "||"]), l=(bad if side == "l" else cmp), r=(bad if side == "r" else cmp))
-                block[i:i] = [{"k": "expr", "e": E("call", UNIT, False, True, fn="println", builtin=True,
-                                                   args=[E("call", STR, fn="string_repr", builtin=True, args=[e])])}]
-            out.append((kind, apply))
+        for op, ty in OPS:
+            for side in ("l", "r"):
+                kind = "logic-operand-%s-snippet" % ("right" if side == "r" else "left") if ty == BOOL else \
+                    "operator-operand-snippet:%s:%s" % (op, side)
+
+                def apply(rng, block=block, side=side, op=op, ty=ty):
+                    i = rng.randrange(len(block) + 1)
+                    while i > 0 and block[i - 1]["k"] in ("break", "continue", "return"):
+                        i -= 1
+                    i = min(i, max(0, len(block) - 1))
+                    if ty == BOOL:
+                        good = E("bin", BOOL, op="<", l=E("int", INT, v=1), r=E("int", INT, v=2))
+                    elif ty == STR:
+                        good = E("str", STR, v="g")
+                    else:
+                        good = E("int", INT, v=2)
+                    bad = wrong(ty, rng)
+                    if rng.random() < 0.5:
+                        bad = E("call", bad["ty"], fn="verif_id", args=[bad], builtin=True, helper=True)
+                    rty = BOOL if (ty == BOOL or op in ("<", "<=", ">", ">=")) else ty
+                    e = E("bin", rty, op=op, l=(bad if side == "l" else good), r=(bad if side == "r" else good))
+                    block[i:i] = [{"k": "expr", "e": E("call", UNIT, False, True, fn="println", builtin=True,
+                                                       args=[E("call", STR, fn="string_repr", builtin=True, args=[e])])}]
+                out.append((kind, apply))
 
     logic_snippet(prog["main"])
     for f in prog["funs"]:
@@ -244,9 +304,12 @@ def build(case):
         ss = sites(pr)
         if not ss:
             return None, None, None
-        kinds = sorted({s[0] for s in ss})
-        kind = kinds[rng.randrange(len(kinds))]          # uniform over site kinds, then over sites
-        cand = [s for s in ss if s[0] == kind]
+        # uniform over site families (the operator-operand snippets of all 13 operators x 2 sides count as one
+        # family, weighted 3), then over the sites of the family
+        fams = sorted({s[0].split(":")[0] for s in ss})
+        fams += [f for f in fams if f == "operator-operand-snippet"] * 2
+        fam = fams[rng.randrange(len(fams))]
+        cand = [s for s in ss if s[0].split(":")[0] == fam]
         site, apply = cand[rng.randrange(len(cand))]
         apply(rng)
     src, _ = printer.print_program(pr)
@@ -265,7 +328,11 @@ def run_batch(cases):
     with core.Scratch("gm-c16-") as sc:
         for case in cases:
             try:
-                pr, src, site = build(case)
+                if "opsnip" in case:
+                    o = case["opsnip"]
+                    pr, src, site = None, opsnip_source(*o), "operator-operand:%s:%s:%s:%s" % (o[0], o[2], o[3], o[4])
+                else:
+                    pr, src, site = build(case)
             except Exception as ex:          # a mutation can make the printer fail (e.g. popping from []): skip
                 out.append({"status": "held", "key": None})
                 continue
